@@ -8,12 +8,13 @@
   <slot> len | isempty      -> number | bool
   <slot> contains <tuple>   -> bool
   <slot> get <tuple>        -> the stored tuple / entry, or none
-  <slot> iter               -> canonical listing (sorted for hs/cs, in order for col)
+  <slot> iter | intoiter    -> canonical listing (sorted for hs/cs, in order for col)
   <slot> drain              -> canonical listing of what was drained
   eq                        -> A == B (same kind required, else bad-op)
 A tuple is `n,n,n`.  Anything else -> bad-op.
 -/
 import HvVar.Model.Collections
+import HvVar.Model.Columns
 open HvVar
 
 abbrev Tup := List Nat
@@ -21,7 +22,7 @@ abbrev Tup := List Nat
 inductive Coll
   | hs (s : HSet Tup)
   | cs (s : CSet Tup)
-  | col (s : ColSet Tup)
+  | col (s : ColStore Nat)
 
 structure St where
   arity : Nat
@@ -58,7 +59,7 @@ def collOp (ar : Nat) (c : Coll) (cmd : List String) : Option (Coll × String) :
   match c, cmd with
   | _, ["new", "hs"] => some (.hs HSet.empty, "ok")
   | _, ["new", "cs"] => some (.cs CSet.empty, "ok")
-  | _, ["new", "col"] => some (.col ColSet.empty, "ok")
+  | _, ["new", "col"] => some (.col (ColStore.empty ar), "ok")
   | .hs s, ["insert", t] => (parseTup ar t).map fun t => let r := s.insert t; (.hs r.1, showBool r.2)
   | .cs s, ["insert", t] => (parseTup ar t).map fun t => let r := s.insert t; (.cs r.1, showBool r.2)
   | .col s, ["insert", t] => (parseTup ar t).map fun t => let r := s.insert t; (.col r.1, showBool r.2)
@@ -81,6 +82,9 @@ def collOp (ar : Nat) (c : Coll) (cmd : List String) : Option (Coll × String) :
   | .hs s, ["iter"] => some (c, showSorted s.iter)
   | .cs s, ["iter"] => some (c, showSorted s.iter)
   | .col s, ["iter"] => some (c, showList s.iter)
+  | .hs s, ["intoiter"] => some (c, showSorted s.iter)
+  | .cs s, ["intoiter"] => some (c, showSorted s.intoIter)
+  | .col s, ["intoiter"] => some (c, showList s.iter)
   | .hs s, ["drain"] => let r := s.drain; some (.hs r.1, showSorted r.2)
   | .cs s, ["drain"] => let r := s.drain; some (.cs r.1, showSorted r.2)
   | .col s, ["drain"] => let r := s.drain; some (.col r.1, showList r.2)
